@@ -44,6 +44,7 @@ def run(chk):
                 for p in B.accept:
                     if not B.consistent(p, pe, b):
                         continue
+                    chk.focus(p, pe)
                     stores = [e for e in p.events if e.kind in ('store', 'aug', 'assign') and e.target == r.table]
                     if regular:
                         # flags reset (R2)
@@ -81,6 +82,7 @@ def run(chk):
         pe = B.evaluator({'bid': b, 'slot': 1, 'active': B.players[0], 'last_bid': B.bids[3], 'last_bidder': B.players[2]})
         for p in B.accept:
             if B.consistent(p, pe, b):
+                chk.focus(p, pe)
                 lb, lbd = B.post(p, r.last_bid, pe), B.post(p, r.last_bidder, pe)
                 chk.require(lb == B.bids[3] and lbd == B.players[2], 'C03.R2', B.where, B.qual, f'last bid after {b}',
                             f'{b} does not change the last bid / bidder', f'{b} changes last bid/bidder to {lb}/{lbd}')
